@@ -4,7 +4,7 @@ CONSTANTS
   UnitSeq <- Units
   MaxBody = 2
   Framings = {"cl", "chunked", "close"}
-  Kinds = {"ok", "refuse", "blackhole", "noread", "garbage", "badhdr", "badcl", "badchunk"}
+  Kinds = {"ok", "refuse", "blackhole", "noread", "garbage", "badhdr", "badcl", "shortcl", "badchunk", "tecase"}
   CutCodes <- Codes_quick
   UpModes = {"free"}
   Requests <- Req_one
